@@ -1,0 +1,100 @@
+// Verification contracts (comment-only, compiled only with the "verif" build tag; read by /verif/govc).
+
+//go:build verif
+// +build verif
+
+package core
+
+// Property C07 — native tokens are conserved: transfers and gas accounting.
+// The ghost ledger `c07Ledger` is declared in core/state/verif_contracts_c07.go.
+
+// ---------------------------------------------------------------------------------------------------------------
+// vm.StateDB as seen from package core: the interface methods carry the ledger effect of their implementation
+// ((*state.StateDB).AddBalance / SubBalance, verified in core/state down to stateObject.setBalance).
+// ---------------------------------------------------------------------------------------------------------------
+
+//@ func (github.com/youchainhq/go-youchain/core/vm.StateDB).AddBalance props C07
+//@ trusted
+//@ requires arg1 != nil
+//@ modifies all(state.stateObject.data), c07Ledger
+//@ ensures c07Ledger == old(c07Ledger) + big(arg1)
+
+//@ func (github.com/youchainhq/go-youchain/core/vm.StateDB).SubBalance props C07
+//@ trusted
+//@ requires arg1 != nil
+//@ modifies all(state.stateObject.data), c07Ledger
+//@ ensures c07Ledger == old(c07Ledger) - big(arg1)
+
+//@ func (github.com/youchainhq/go-youchain/core/vm.StateDB).GetBalance props C07
+//@ trusted
+//@ pure
+//@ ensures result != nil
+
+// "value only moves": a transfer takes from the sender exactly what it gives to the recipient.
+//@ func Transfer props C07
+//@ requires amount != nil
+//@ modifies all(state.stateObject.data), c07Ledger
+//@ ensures [value-only-moves] c07Ledger == old(c07Ledger)
+
+//@ func CanTransfer props C07
+//@ pure
+
+// ---------------------------------------------------------------------------------------------------------------
+// Gas: "fees paid equal rewards credited".
+// ---------------------------------------------------------------------------------------------------------------
+
+// A message is an immutable record: its getters are functions of the message value.
+//@ spec func c07Price(m: Message) *big.Int
+//@ spec func c07Gas(m: Message) int
+//@ func (Message).GasPrice props C07
+//@ trusted
+//@ pure
+//@ opt noalloc
+//@ ensures result == c07Price(recv)
+//@ func (Message).Gas props C07
+//@ trusted
+//@ pure
+//@ opt noalloc
+//@ ensures result == c07Gas(recv) && 0 <= result && result < 2^64
+//@ func (Message).From props C07
+//@ trusted
+//@ pure
+//@ func (Message).TxHash props C07
+//@ trusted
+//@ pure
+
+//@ func (*GasPool).SubGas props C07
+//@ modifies *gp
+//@ func (*GasPool).AddGas props C07
+//@ modifies *gp
+
+//@ func (*github.com/youchainhq/go-youchain/core/state.StateDB).GetRefund props C07
+//@ nobody
+//@ pure
+
+// Buying gas: gas limit x price leaves the sender's balance (it is handed back / turned into rewards later).
+//@ func (*MessageContext).buyGas props C07
+//@ requires allocated(c07Price(mc.Msg))
+//@ modifies mc.AvailableGas, mc.InitialGas, *mc.GP, all(state.stateObject.data), c07Ledger
+//@ ensures [gas-bought] result == nil ==> c07Ledger == old(c07Ledger) - c07Gas(mc.Msg) * big(c07Price(mc.Msg)) &&
+//@     mc.InitialGas == c07Gas(mc.Msg) && mc.AvailableGas == c07Gas(mc.Msg)
+//@ ensures [refused-unchanged] result != nil ==> c07Ledger == old(c07Ledger)
+
+// Refund: the gas left (including the capped refund counter) x price goes back to the sender.
+//@ func (*MessageContext).refundGas props C07
+//@ requires allocated(c07Price(mc.Msg))
+//@ modifies mc.AvailableGas, *mc.GP, all(state.stateObject.data), c07Ledger
+//@ ensures [unused-gas-returned] c07Ledger == old(c07Ledger) + mc.AvailableGas * big(c07Price(mc.Msg))
+
+// ApplyMessageEntry / ApplyTransaction — "fees paid equal rewards credited": what finally left the sender for gas must be what
+// ApplyTransaction adds to the block's GasRewards (price x the gas figure ApplyMessageEntry returns).
+//@ // PENDING-FINDING: the real code violates both clauses whenever the EVM refund counter is non-zero: ApplyMessageEntry returns the
+//@ // PRE-refund gas figure, refundGas has meanwhile returned refund x price to the sender, ApplyTransaction credits GasRewards with the
+//@ // pre-refund figure (DESIGN §9 probe: GasRewards 78411, sender paid 39207). Machine-checked as C17 obligations
+//@ // `(*StateProcessor).ApplyMessageEntry#ensures[reported-gas-is-charged-gas]` and `(*StateProcessor).ApplyTransaction#ensures[rewards-equal-fees-paid]`
+//@ // (core/verif_contracts_c17.go), covered by /verif/findings_proposed/C17.json and /verif/proposed_fixes/C17/report_charged_gas.{diff,md}.
+//@ // func (*StateProcessor).ApplyMessageEntry props C07
+//@ // ensures [fees-paid-equal-gas-reported] result3 == nil ==> c07Ledger == old(c07Ledger) - result1 * big(c07Price(msg))
+//@ // func (*StateProcessor).ApplyTransaction props C07
+//@ // ghost after call (*math/big.Int).Add#1: c07Ledger := c07Ledger + big(a2)          // price x gas enters "GasRewards in transit"
+//@ // ensures [fees-paid-equal-rewards-credited] result2 == nil ==> c07Ledger == old(c07Ledger)
